@@ -104,7 +104,15 @@ func spec_lookup(act []int, off []int, chk []int, adef []int, gdef []int, nT int
 //@ ensures forall g int :: 0 <= g && g < len(gotoTable) ==> len(gotoTable[g]) == len(tab)
 //@ ensures [C05] forall s, a int :: 0 <= s && s < len(tab) && 0 <= a && a <= len(lalr.G.VtSet) ==> actionTable[s][a] == tab[s][a]
 //@ ensures [C05] forall g, s int :: 0 <= g && g < len(gotoTable) && 0 <= s && s < len(tab) ==> gotoTable[g][s] == tab[s][len(lalr.G.VtSet)+1+g]
+// the rows handed to the packer are NEW arrays, not views of the dense table: TrySplitTable overwrites them (subtracts the
+// row default, appends) and the dense table lalr.GTable is still emitted verbatim by the unpacked and TypeScript back ends
+//@ ensures [C05] forall s int :: 0 <= s && s < len(actionTable) ==> fresh(backing(actionTable[s]))
+//@ ensures [C05] forall g int :: 0 <= g && g < len(gotoTable) ==> fresh(backing(gotoTable[g]))
+//@ loop 0: invariant forall s int :: 0 <= s && s < i ==> fresh(backing(actionTable[s]))
+//@ loop 1: invariant forall g int :: 0 <= g && g < i ==> fresh(backing(gotoTable[g]))
+//@ loop 2: invariant fresh(backing(row))
 //@ modifies nothing
+//@ allocates arrays
 //@ loop 0: invariant 0 <= i && i <= len(tab) && len(actionTable) == i
 //@ loop 0: invariant forall s int :: 0 <= s && s < i ==> len(actionTable[s]) == nTerminals + 1
 //@ loop 0: invariant forall s, a int :: 0 <= s && s < i && 0 <= a && a <= nTerminals ==> actionTable[s][a] == tab[s][a]
@@ -596,3 +604,93 @@ func spec_namesSp(l *LALR1, set []int, n int) string { panic("spec") }
 //@ loop 0: end_of_body tlen == at_head(tlen) + 1 && setLine(lalr, lalr.ReadSet, at_head(tlen), trIndex)
 //@ order_exempt debug listing printed to stdout (DebugFlags only), not part of the generated parser
 //@ loop 1: invariant str_set == spec_namesSp(lalr, set, idx1) && tlen == before(tlen)
+
+// ---------------------------------------------------------------------------------------------
+// C01 / C02 / C03: the transition list is the LR(0) automaton, entry by entry. BuildTrans ESTABLISHES the shape the
+// relation builders and GenTable require (positions are indices, shift entries carry a symbol and a target state,
+// reduce entries a rule) and ties the list to the automaton in both directions: every shift entry is a goto edge of
+// its state and every goto edge has its entry; every reduce entry is a complete item of its state and every complete
+// item has its entry.
+//@ def stOf(l *LALR1, s int) = l.G.LR0.LR0Closure[s]
+//@ def lr0Shape(l *LALR1) = l != nil && l.G != nil && l.G.LR0 != nil && len(l.G.ProductoinRules) < 4294967296 &&
+//@     (forall i int :: 0 <= i && i < len(l.G.ProductoinRules) ==> l.G.ProductoinRules[i] != nil) &&
+//@     (forall s int :: 0 <= s && s < len(l.G.LR0.LR0Closure) ==> stOf(l, s) != nil && stOf(l, s).Index == s) &&
+//@     (forall s, i int :: 0 <= s && s < len(l.G.LR0.LR0Closure) && 0 <= i && i < len(stOf(l, s).Items) ==> stOf(l, s).Items[i] != nil &&
+//@             0 <= stOf(l, s).Items[i].RuleIndex && stOf(l, s).Items[i].RuleIndex < len(l.G.ProductoinRules)) &&
+//@     (forall s, k int :: 0 <= s && s < len(l.G.LR0.LR0Closure) && 0 <= k && k < len(stOf(l, s).GoTo) ==> stOf(l, s).GoTo[k] != nil && stOf(l, s).GoTo[k].Sym != nil &&
+//@             stOf(l, s).GoTo[k].Sym.ID < 4294967296 && 0 <= stOf(l, s).GoTo[k].ItemCl)
+//@ def edgeOf(l *LALR1, t Transistor, s int, k int) = 0 <= s && s < len(l.G.LR0.LR0Closure) && 0 <= k && k < len(l.G.LR0.LR0Closure[s].GoTo) &&
+//@     t.q == s && t.sym_or_rule == l.G.LR0.LR0Closure[s].GoTo[k].Sym.ID && t.to == l.G.LR0.LR0Closure[s].GoTo[k].ItemCl
+//@ def doneItem(l *LALR1, s int, i int) = 0 <= s && s < len(l.G.LR0.LR0Closure) && 0 <= i && i < len(l.G.LR0.LR0Closure[s].Items) &&
+//@     l.G.LR0.LR0Closure[s].Items[i].Dot == len(l.G.ProductoinRules[l.G.LR0.LR0Closure[s].Items[i].RuleIndex].RighPart)
+//@ def redOf(l *LALR1, t Transistor, s int, i int) = doneItem(l, s, i) && t.q == s && t.sym_or_rule&CheckMask != 0 && int(t.sym_or_rule&Mask) == l.G.LR0.LR0Closure[s].Items[i].RuleIndex
+//@ def entryOK(l *LALR1, t Transistor) = (t.sym_or_rule&CheckMask == 0 && (exists k int :: edgeOf(l, t, t.q, k))) || (t.sym_or_rule&CheckMask != 0 && (exists i int :: redOf(l, t, t.q, i)))
+
+//@ func (*LALR1).BuildTrans
+//@ props C01 C02 C03
+//@ requires lr0Shape(lalr) && len(lalr.trans) == 0
+//@ ensures [C01,C02,C03] forall n int :: 0 <= n && n < len(lalr.trans) ==> lalr.trans[n].Index == n && entryOK(lalr, lalr.trans[n])
+//@ ensures [C01,C02,C03] forall s, k int :: {lalr.G.LR0.LR0Closure[s].GoTo[k]} 0 <= s && s < len(lalr.G.LR0.LR0Closure) && 0 <= k && k < len(lalr.G.LR0.LR0Closure[s].GoTo) ==> (exists n int :: 0 <= n && n < len(lalr.trans) && edgeOf(lalr, lalr.trans[n], s, k))
+//@ ensures [C01,C02,C03] forall s, i int :: {lalr.G.LR0.LR0Closure[s].Items[i]} doneItem(lalr, s, i) ==> (exists n int :: 0 <= n && n < len(lalr.trans) && redOf(lalr, lalr.trans[n], s, i))
+//@ modifies lalr.trans
+//@ loop 0: invariant forall n int :: 0 <= n && n < len(lalr.trans) ==> entryOK(lalr, lalr.trans[n])
+//@ loop 0: invariant forall s, k int :: {lalr.G.LR0.LR0Closure[s].GoTo[k]} 0 <= s && s < idx0 && 0 <= k && k < len(lalr.G.LR0.LR0Closure[s].GoTo) ==> (exists n int :: 0 <= n && n < len(lalr.trans) && edgeOf(lalr, lalr.trans[n], s, k))
+//@ loop 1: invariant forall n int :: 0 <= n && n < len(lalr.trans) ==> entryOK(lalr, lalr.trans[n])
+//@ loop 1: invariant forall k int :: {lalr.G.LR0.LR0Closure[idx0].GoTo[k]} 0 <= k && k < idx1 ==> (exists n int :: 0 <= n && n < len(lalr.trans) && edgeOf(lalr, lalr.trans[n], idx0, k))
+//@ loop 1: invariant q == idx0 && iC == lalr.G.LR0.LR0Closure[idx0]
+//@ loop 1: invariant len(lalr.trans) >= before(len(lalr.trans)) && (forall n int :: 0 <= n && n < before(len(lalr.trans)) ==> lalr.trans[n] == before(lalr.trans)[n])
+//@ loop 2: invariant forall n int :: 0 <= n && n < len(lalr.trans) ==> entryOK(lalr, lalr.trans[n])
+//@ loop 2: invariant forall s, k int :: {lalr.G.LR0.LR0Closure[s].GoTo[k]} 0 <= s && s < len(lalr.G.LR0.LR0Closure) && 0 <= k && k < len(lalr.G.LR0.LR0Closure[s].GoTo) ==> (exists n int :: 0 <= n && n < len(lalr.trans) && edgeOf(lalr, lalr.trans[n], s, k))
+//@ loop 2: invariant forall s, i int :: {lalr.G.LR0.LR0Closure[s].Items[i]} s < idx2 && doneItem(lalr, s, i) ==> (exists n int :: 0 <= n && n < len(lalr.trans) && redOf(lalr, lalr.trans[n], s, i))
+//@ loop 3: invariant forall n int :: 0 <= n && n < len(lalr.trans) ==> entryOK(lalr, lalr.trans[n])
+//@ loop 3: invariant forall i int :: {lalr.G.LR0.LR0Closure[idx2].Items[i]} i < idx3 && doneItem(lalr, idx2, i) ==> (exists n int :: 0 <= n && n < len(lalr.trans) && redOf(lalr, lalr.trans[n], idx2, i))
+//@ loop 3: invariant iC == lalr.G.LR0.LR0Closure[idx2]
+//@ loop 3: invariant len(lalr.trans) >= before(len(lalr.trans)) && (forall n int :: 0 <= n && n < before(len(lalr.trans)) ==> lalr.trans[n] == before(lalr.trans)[n])
+//@ loop 1: end_of_body len(lalr.trans) == at_head(len(lalr.trans)) + 1 && (forall n int :: 0 <= n && n < at_head(len(lalr.trans)) ==> lalr.trans[n] == at_head(lalr.trans)[n])
+//@ loop 3: end_of_body len(lalr.trans) >= at_head(len(lalr.trans)) && (forall n int :: 0 <= n && n < at_head(len(lalr.trans)) ==> lalr.trans[n] == at_head(lalr.trans)[n])
+//@ loop 4: invariant len(lalr.trans) == before(len(lalr.trans)) && (forall n int :: 0 <= n && n < idx4 ==> lalr.trans[n].Index == n)
+//@ loop 4: invariant forall n int :: 0 <= n && n < len(lalr.trans) ==> lalr.trans[n].q == before(lalr.trans)[n].q && lalr.trans[n].sym_or_rule == before(lalr.trans)[n].sym_or_rule && lalr.trans[n].to == before(lalr.trans)[n].to
+
+// ---------------------------------------------------------------------------------------------
+// C03 / C02: direct reads. DR(p, A) = the terminals that can be shifted in the state reached by (p, A). Every entry of
+// DRSet gets its OWN array: Digraph starts each Read/Follow set from the DR slice itself and Union appends in place when
+// there is spare capacity, so two entries sharing an array would overwrite each other's lookaheads.
+//@ def isTermTr(l *LALR1, i int, to int) = 0 <= i && i < len(l.trans) && l.trans[i].q == to && l.trans[i].sym_or_rule&CheckMask == 0 && !l.G.Symbols[int(l.trans[i].sym_or_rule)].IsNonTerminator
+// drSound(l, s, to): every element of s is a terminal shiftable in state `to`;  drCompl(l, s, to, n): every such terminal among the first n transitions is in s
+//@ def drSound(l *LALR1, s []int, to int) = forall j int :: {s[j]} 0 <= j && j < len(s) ==> (exists i int :: isTermTr(l, i, to) && int(l.trans[i].sym_or_rule) == s[j])
+//@ def drCompl(l *LALR1, s []int, to int, n int) = forall i int :: {l.trans[i]} i < n && isTermTr(l, i, to) ==> (exists j int :: 0 <= j && j < len(s) && s[j] == int(l.trans[i].sym_or_rule))
+// what the direct-read computation needs of the transition list (a part of wfTrans)
+//@ def transLite(l *LALR1) = l != nil && l.G != nil && (forall i int :: 0 <= i && i < len(l.trans) ==> l.trans[i].Index == i &&
+//@     (l.trans[i].sym_or_rule&CheckMask == 0 ==> 0 <= int(l.trans[i].sym_or_rule) && int(l.trans[i].sym_or_rule) < len(l.G.Symbols) && l.G.Symbols[int(l.trans[i].sym_or_rule)] != nil))
+
+//@ func (*LALR1).fetchOneDr
+//@ props C03 C02
+//@ results res
+//@ requires transLite(lalr) && tr.sym_or_rule&CheckMask == 0 && 0 <= int(tr.sym_or_rule) && int(tr.sym_or_rule) < len(lalr.G.Symbols) && lalr.G.Symbols[int(tr.sym_or_rule)] != nil
+//@ ensures [C03,C02] drSound(lalr, res, tr.to)
+//@ ensures [C03,C02] lalr.G.Symbols[int(tr.sym_or_rule)].IsNonTerminator ==> drCompl(lalr, res, tr.to, len(lalr.trans))
+//@ ensures [C03,C02] (isnil(res) && len(res) == 0) || fresh(backing(res))
+//@ modifies nothing
+//@ allocates arrays
+//@ loop 0: invariant drSound(lalr, res, nextState) && drCompl(lalr, res, nextState, idx0)
+//@ loop 0: invariant (isnil(res) && len(res) == 0) || fresh(backing(res))
+
+//@ def isNT(l *LALR1, k int) = 0 <= k && k < len(l.trans) && l.trans[k].sym_or_rule&CheckMask == 0 && l.G.Symbols[int(l.trans[k].sym_or_rule)].IsNonTerminator
+//@ def ownArrays(l *LALR1) = forall k1, k2 int :: {l.DRSet[k1], l.DRSet[k2]} has(l.DRSet, k1) && has(l.DRSet, k2) && k1 != k2 && !isnil(l.DRSet[k1]) && !isnil(l.DRSet[k2]) ==> backing(l.DRSet[k1]) != backing(l.DRSet[k2])
+
+//@ func (*LALR1).CalcDR
+//@ props C03 C02
+//@ requires transLite(lalr) && (forall k int :: !has(lalr.DRSet, k))
+// DRSet is keyed by exactly the nonterminal transitions (and transition 0, which gets the end marker)
+//@ ensures [C03,C02] forall k int :: has(lalr.DRSet, k) <==> isNT(lalr, k) || k == 0
+//@ ensures [C03,C02] forall k int :: {lalr.DRSet[k]} isNT(lalr, k) && k != 0 ==> drSound(lalr, lalr.DRSet[k], lalr.trans[k].to) && drCompl(lalr, lalr.DRSet[k], lalr.trans[k].to, len(lalr.trans))
+//@ ensures [C03,C02] isNT(lalr, 0) ==> drCompl(lalr, lalr.DRSet[0], lalr.trans[0].to, len(lalr.trans)) && inSet(lalr.DRSet[0], len(lalr.DRSet[0]), 1)
+//@ ensures [C03,C02] ownArrays(lalr)
+//@ modifies lalr.DRSet
+//@ allocates arrays
+//@ loop 0: invariant forall k int :: has(lalr.DRSet, k) <==> isNT(lalr, k) && k < idx0
+//@ loop 0: invariant forall k int :: {lalr.DRSet[k]} isNT(lalr, k) && k < idx0 ==> drSound(lalr, lalr.DRSet[k], lalr.trans[k].to) && drCompl(lalr, lalr.DRSet[k], lalr.trans[k].to, len(lalr.trans))
+//@ loop 0: invariant ownArrays(lalr) && (forall k int :: {lalr.DRSet[k]} has(lalr.DRSet, k) && !isnil(lalr.DRSet[k]) ==> fresh(backing(lalr.DRSet[k])))
+//@ loop 0: end_of_body forall k int :: k != idx0 ==> has(lalr.DRSet, k) == at_head(has(lalr.DRSet, k)) && lalr.DRSet[k] == at_head(lalr.DRSet)[k]
+//@ loop 0: end_of_body isNT(lalr, idx0) ==> has(lalr.DRSet, idx0) && drSound(lalr, lalr.DRSet[idx0], lalr.trans[idx0].to) && drCompl(lalr, lalr.DRSet[idx0], lalr.trans[idx0].to, len(lalr.trans))
+//@ loop 0: end_of_body !isNT(lalr, idx0) ==> has(lalr.DRSet, idx0) == at_head(has(lalr.DRSet, idx0))
